@@ -101,6 +101,21 @@ static void resolverScen(int variant)
       if(vf_now_ns() - t0 >= 1000000000LL) vf_failf("C14:interrupt-ignored", "run() returned %lld ms after a pending interrupt(): only a timeout ended it", (vf_now_ns() - t0) / 1000000);
       break;
     }
+    case 5: // reconnect: after the first attempt was abolished a second connect(host) is started and only then the first establisher is
+            // removed - removing one object must not take the other's pending notification away
+    {
+      server.run();
+      if(cb.abolished != 1) { vf_failf("C14:connect-not-dispatched", "run() returned with %d onAbolished notifications for the unresolvable host", (int)cb.abolished); break; }
+      EstCb cb2; cb2.server = &server;
+      Server::Establisher* e2 = server.connect(String("other-host.invalid"), 81, cb2);
+      if(!e2) { vf_fail("C14:connect-failed", "second connect(host) returned 0"); break; }
+      server.remove(*e); cb.removed = true;
+      StopTimer st; st.server = &server;
+      server.time(900, st);     // bounds the wait in virtual time: without it a lost notification is an endless run()
+      server.run();
+      if(cb2.abolished != 1) vf_failf("C14:connect-not-dispatched", "the second establisher got %d onAbolished notifications after the first one was removed", (int)cb2.abolished);
+      break;
+    }
     default: // interrupt() from another thread while the resolver reports back
     {
       cb.server = 0;
@@ -119,5 +134,5 @@ static void resolverScen(int variant)
 }
 extern "C" int vf_scenario_count(void) { return 2; }
 extern "C" const char* vf_scenario_name(int id) { return id == 0 ? "interrupt" : "resolver"; }
-extern "C" int vf_scenario_variants(int id) { return id == 0 ? 4 : 5; }
+extern "C" int vf_scenario_variants(int id) { return id == 0 ? 4 : 6; }
 extern "C" void vf_scenario_run(int id, int variant) { if(id == 0) scen(variant); else resolverScen(variant); }
